@@ -188,6 +188,18 @@ def roundtrip_job(job):
                     for k in a:
                         if not same(a[k], b[k], 1e-11):
                             out.append({"what": "file-built-consumer", "which": k})
+                # a tensor is replaced (same shape) in both containers and the caps are computed again: again identical
+                if n >= 1 and not out:
+                    repl = 0.5 * np.array(ref._mpo_tensors[n - 1]) + 0.25 * np.array(ref._mpo_tensors[0]) \
+                        if np.array(ref._mpo_tensors[0]).shape == np.array(ref._mpo_tensors[n - 1]).shape else 0.5 * np.array(ref._mpo_tensors[n - 1])
+                    ref.set_mpo_tensor(n - 1, repl.copy())
+                    fb.set_mpo_tensor(n - 1, repl.copy())
+                    ref.compute_caps()
+                    fb.compute_caps()
+                    for i in range(n + 1):
+                        if not same(fb.get_cap_tensor(i), ref.get_cap_tensor(i)):
+                            out.append({"what": "file-built-cap-after-replacing-a-tensor", "which": "cap%d" % i})
+                            break
                 # labels assigned after the file was created (as for an in-memory tensor) must reach the file
                 fb.name = ref.name
                 fb.description = ref.description
